@@ -86,10 +86,19 @@ def inst_C05(d):
     n, edges = _struct(d)
     R, roots, allow_empty, prim = d["R"], d["roots"], d["allow_empty"], d["prim"]
 
+    # "mixed" labels: Python int constants at the positions i with i % 3 != 0 (neighbouring positions both constant, equal
+    # and different values occur), variables elsewhere
+    mixed = d.get("labels") == "mixed"
+    const_at = (lambda i: i % 3 != 0) if mixed else (lambda i: False)
+    const_val = lambda i: (i // 2) % R
+    lab = lambda alpha: [const_val(i) if const_at(i) else a for i, a in enumerate(alpha)]
+
     def declare(s):
         return list(s.int_array(n, 0, R - 1))
 
     def emit(s, caller):
+        if mixed:
+            caller = [const_val(i) if const_at(i) else v for i, v in enumerate(caller)]
         # the public function has no use_graph_primitive argument: the configuration flag decides
         from cspuz.configuration import config
         from cspuz.array import IntArray1D
@@ -109,10 +118,10 @@ def inst_C05(d):
             config.use_graph_primitive = old
 
     def pred(alpha):
-        return graphpred.classes_connected(n, edges, alpha, R, allow_empty, roots)
+        return graphpred.classes_connected(n, edges, lab(alpha), R, allow_empty, roots)
 
     def classify(alpha):
-        form = "grid" if "grid" in d else ("array1d" if d.get("as_array") else "list")
+        form = "grid" if "grid" in d else ("array1d" if d.get("as_array") else ("list-with-constants" if mixed else "list"))
         return "%s-%s" % (form, "primitive" if prim else "auxiliary")
 
     return emission.Inst(declare, emit, pred, classify, alphas=(lambda caller: deep_alphas(d)) if d.get("deep") else None)
@@ -129,6 +138,10 @@ def descs_C05(tier):
                 if R >= 2:
                     # lists shorter than the number of regions name the roots of the first regions only
                     rootss += [[n - 1], [], [i % n for i in range(R - 1)]]
+                if n >= 2 and not (R ** n > 300):
+                    for allow_empty in (False, True):
+                        yield dict(func="division_connected", n=n, edges=[list(e) for e in edges], R=R, roots=None, allow_empty=allow_empty,
+                                   prim=False, as_array=False, labels="mixed")
                 for roots in rootss:
                     for allow_empty in (False, True):
                         for prim in (False, True):
@@ -756,6 +769,15 @@ def deep_alphas(d):
         per_v = {(y, 0) for y in range(h)} | {(y, w) for y in range(h)}
         if d.get("weave"):
             return _weaves(h, w, d["single_cycle"], rnd)
+        loops = []
+        if h >= 3 and w >= 3:
+            # two closed loops that pass straight through each other at four 4-way points (a wide and a tall rectangle):
+            # each alone is one strand, together they are two
+            A = pack({(y, x) for y in (1, h - 1) for x in range(w)}, {(y, x) for x in (0, w) for y in range(1, h - 1)})
+            B = pack({(y, x) for y in (0, h) for x in range(1, w - 1)}, {(y, x) for x in (1, w - 1) for y in range(h)})
+            loops = [A, B, [a or b for a, b in zip(A, B)]]
+        if d.get("deep") == "crossing-loops":
+            return loops + [pack(per_h, per_v), pack(set(), set())]
         bases = [pack(per_h, per_v), pack(set(), set()), pack({(0, x) for x in range(w)}, set()),
                  pack({(y, x) for y in range(h + 1) for x in range(w)}, {(y, x) for y in range(h) for x in range(w + 1)})]
         for cy in range(1, h):
@@ -764,7 +786,7 @@ def deep_alphas(d):
                 bases.append(pack({(cy - 1, cx - 1), (cy, cx - 1), (cy, cx), (cy + 1, cx)}, {(cy - 1, cx - 1), (cy - 1, cx), (cy, cx), (cy, cx + 1)}))
                 # open path crossing itself at (cy, cx)
                 bases.append(pack({(cy, cx - 1), (cy, cx), (cy - 1, cx)}, {(cy - 1, cx), (cy, cx), (cy - 1, cx + 1)} if cx + 1 <= w else set()))
-        return [a for b in bases for a in _mutations(b, rnd, 6)]
+        return loops + [a for b in bases for a in _mutations(b, rnd, 6)]
     raise ValueError(f)
 
 
@@ -1021,4 +1043,8 @@ def deep_descs(prop, tier):
         for fr in ((4, 5), (5, 4)) + (((5, 5), (4, 6)) if big else ()):
             for sc in (False, True):
                 out.append(dict(func="active_edges_connected_crossable", frame=list(fr), single_cycle=sc, prim=False, deep=True, weave=True))
+        for sc in (False, True):
+            # the native route on a frame with four 4-way points: a handful of patterns only (the reference encoding of the
+            # native operator is cubic in the graph size)
+            out.append(dict(func="active_edges_connected_crossable", frame=[3, 3], single_cycle=sc, prim=True, deep="crossing-loops"))
     return out
